@@ -293,12 +293,12 @@ def run(case: dict[str, Any]) -> dict[str, Any]:
     try:
         # serial set-up by the root session (not scheduled, not part of the history)
         with sim.quiet():
-            root = core.raw(world.fs.duck_conn).cursor()
+            # NB: nothing here may touch the instance when pre == "none": its very first use then happens inside
+            # the scheduled session threads (lazy initialisation is a race window too)
             if cfg["pre"] in ("db", "db_schema", "all"):
                 setup = world.fs.connect(database=DB, schema=SC if cfg["pre"] != "db" else None)
                 if cfg["pre"] == "all":
                     setup.cursor().execute(f"CREATE TABLE {DB}.{SC}.SHARED (id int, who varchar(10))")
-            root.close()
         res = run_threaded(sim, world, case, case["ops"])
         history = res["history"]
         if res["deadlock"]:
